@@ -142,6 +142,62 @@ def do_elseify(tree):
           break
 
 
+def do_fstring(tree):
+  """'..{}..'.format(a, b) with plain positional fields  ->  f'..{a}..{b}..'  (every occurrence)."""
+  import re
+  class T(ast.NodeTransformer):
+    def visit_Call(self, n):
+      self.generic_visit(n)
+      if isinstance(n.func, ast.Attribute) and n.func.attr == 'format' and isinstance(n.func.value, ast.Constant) and isinstance(n.func.value.value, str) \
+          and not n.keywords and n.args and not any(isinstance(a, ast.Starred) for a in n.args):
+        tmpl = n.func.value.value
+        parts = re.split(r'(\{\{|\}\}|\{\})', tmpl)
+        if any(('{' in x or '}' in x) and x not in ('{{', '}}', '{}') for x in parts) or parts.count('{}') != len(n.args):
+          return n
+        vals, k = [], 0
+        for x in parts:
+          if x == '{}':
+            vals.append(ast.FormattedValue(value=n.args[k], conversion=-1, format_spec=None)); k += 1
+          elif x:
+            vals.append(ast.Constant(value=x.replace('{{', '{').replace('}}', '}')))
+        return ast.copy_location(ast.JoinedStr(values=vals), n)
+      return n
+  T().visit(tree)
+
+
+def do_hints(tree):
+  """Adds `-> Any`-style annotations to every un-annotated parameter and return of every function."""
+  for n in ast.walk(tree):
+    if isinstance(n, FN):
+      for a in n.args.posonlyargs + n.args.args + n.args.kwonlyargs:
+        if a.annotation is None and a.arg not in ('self', 'cls'):
+          a.annotation = ast.Constant(value='Any')
+      if n.returns is None and n.name != '__init__':
+        n.returns = ast.Constant(value='Any')
+
+
+def do_guard(tree):
+  """for ...: if c: BODY   ->   for ...: if not c: continue; BODY     (loop bodies that are one plain `if` without else)"""
+  for n in ast.walk(tree):
+    if isinstance(n, (ast.For, ast.While)) and len(n.body) == 1 and isinstance(n.body[0], ast.If) and not n.body[0].orelse and not n.orelse:
+      i = n.body[0]
+      n.body = [ast.If(test=ast.UnaryOp(op=ast.Not(), operand=i.test), body=[ast.Continue()], orelse=[])] + i.body
+
+
+def do_kwcalls(tree):
+  """Calls of module-level functions of the same file with simple positional arguments -> keyword arguments (after the first)."""
+  sigs = {}
+  for st in tree.body:
+    if isinstance(st, ast.FunctionDef) and not st.args.vararg and not st.args.posonlyargs and not st.decorator_list:
+      sigs[st.name] = [a.arg for a in st.args.args]
+  for n in ast.walk(tree):
+    if isinstance(n, ast.Call) and isinstance(n.func, ast.Name) and n.func.id in sigs and not n.keywords and len(n.args) >= 2 \
+        and not any(isinstance(a, ast.Starred) for a in n.args) and len(n.args) <= len(sigs[n.func.id]):
+      ps = sigs[n.func.id]
+      n.keywords = [ast.keyword(arg=ps[i], value=a) for i, a in enumerate(n.args) if i >= 1]
+      n.args = n.args[:1]
+
+
 def main():
   mode = sys.argv[1]
   files = sys.argv[2:] or CORE
@@ -154,6 +210,10 @@ def main():
       if mode == 'rename': do_rename(tree)
       elif mode == 'strings': do_strings(tree)
       elif mode == 'swapif': do_swapif(tree)
+      elif mode == 'fstring': do_fstring(tree)
+      elif mode == 'hints': do_hints(tree)
+      elif mode == 'guard': do_guard(tree)
+      elif mode == 'kwcalls': do_kwcalls(tree)
       elif mode == 'elseify':
         for _ in range(6): do_elseify(tree)
       src = ast.unparse(ast.fix_missing_locations(tree))
